@@ -380,3 +380,27 @@ def parse_harness_output(ctx, name, variant, r):
                 name, variant, r["rc"], r["err"][-300:].replace("\n", " | ")))
     elif not got_summary:
         ctx.harness_errors.append("harness %s produced no summary" % name)
+
+
+def warm_wisdom(ctx, harness, variant="rel", args=("--mode", "warm")):
+    """FFT wisdom shared by all workers of one check: created in a warm-up phase in which every
+    transform length is planned by exactly one process (no concurrent export to one file), then
+    only read.  Lives in the cache (cold cache = re-plan)."""
+    exe = build.build_harness(variant, harness)
+    wdir = os.path.join(build.CACHE, "wisdom", "%s-%s" % (harness, ctx.tier))
+    os.makedirs(os.path.join(wdir, "inovesa", "fftwisdom"), exist_ok=True)
+    r = run_cmd([exe, "--mode", "lengths", "--tier", ctx.tier], timeout=60)
+    lengths = [int(l.split()[1]) for l in r["out"].splitlines() if l.startswith("L ")]
+    todo = [i for i, n in enumerate(lengths)
+            if not (os.path.exists(os.path.join(wdir, "inovesa", "fftwisdom", "wisdom_r2c32_%d.fftw" % n)) and
+                    os.path.exists(os.path.join(wdir, "inovesa", "fftwisdom", "wisdom_c2r32_%d.fftw" % n)))]
+    with build.Lock(os.path.join(build.CACHE, "lock.wisdom.%s.%s" % (harness, ctx.tier))):
+        def one(i):
+            return run_cmd([exe, "--seed", "1", "--from", str(i), "--count", "1", "--tier", ctx.tier] + list(args),
+                           env={"XDG_DATA_HOME": wdir}, timeout=1800, cwd=wdir)
+        res = pmap(one, todo)
+    for rr in res:
+        if rr["rc"] != 0:
+            ctx.harness_errors.append("wisdom warm-up failed: rc=%s %s" % (rr["rc"], rr["err"][-200:]))
+    ctx.extra["fft_lengths"] = lengths
+    return wdir
